@@ -29,6 +29,7 @@ PRE = ("missing", "empty", "absent", "stale", "agreeing")
 IRS = [
     lambda: mk_ir("p2_both_d", p="the a", d=3),
     lambda: mk_ir("p3_mixed", p="the a", d=-2),
+    lambda: mk_ir("p1_ret_d", p="the a", d=2),
 ]
 STALE = lambda: mk_ir("p1_str_s", p="old text", s="old")  # noqa: E731
 
